@@ -28,7 +28,9 @@ fn some_masks(rng: &mut Rng, b: &Board) -> Vec<u64> {
 pub fn c01(out: &mut Out, thorough: bool) {
     let n = n_positions(thorough, 6_000, 150_000);
     let mut rng = Rng::new(out.seed ^ 0xC01);
-    let ps = positions(&mut rng, n);
+    let mut ps = positions(&mut rng, n);
+    // the fullest move lists there are: 16 mobile men and two en-passant capturers
+    extremal(&mut rng, &mut ps, if thorough { 3_000 } else { 150 });
     let triples = all_triples();
     for (idx, t) in ps.iter().enumerate() {
         let b = t.board;
@@ -119,6 +121,56 @@ fn successor(b: &Board, m: ChessMove) -> String {
     }
 }
 
+/// moves offered to the checked operations that are built from the geometry of the position, NOT from what the
+/// implementation generates (a legal move the generator forgot must still be accepted): every en-passant shaped
+/// capture towards the marker, the four castlings, the king's eight steps, the pawns' pushes and captures onto the last
+/// rank with and without a promotion piece
+pub fn candidate_moves(v: &View) -> Vec<ChessMove> {
+    let mut out = Vec::new();
+    let white = v.white_to_move;
+    let mk = |s: i32, d: i32, piece: Option<chess_bitboard::PromotionPiece>| ChessMove { source: Pos::from_u8(s as u8).unwrap(), dest: Pos::from_u8(d as u8).unwrap(), piece };
+    if let Some(f) = v.ep {
+        let (pr, tr) = if white { (4i32, 5i32) } else { (3, 2) };
+        for df in [-1i32, 1] {
+            let sf = f as i32 + df;
+            if (0..8).contains(&sf) {
+                out.push(mk(pr * 8 + sf, tr * 8 + f as i32, None));
+            }
+        }
+    }
+    let home = if white { 4 } else { 60 };
+    out.push(mk(home, home + 2, None));
+    out.push(mk(home, home - 2, None));
+    for i in 0..64i32 {
+        let c = v.squares[i as usize];
+        let own = if white { c.is_ascii_uppercase() } else { c.is_ascii_lowercase() };
+        if !own {
+            continue;
+        }
+        let (f, r) = (i % 8, i / 8);
+        if c.to_ascii_lowercase() == b'k' {
+            for (df, dr) in [(-1, -1), (-1, 0), (-1, 1), (0, -1), (0, 1), (1, -1), (1, 0), (1, 1)] {
+                let (g, q) = (f + df, r + dr);
+                if (0..8).contains(&g) && (0..8).contains(&q) {
+                    out.push(mk(i, q * 8 + g, None));
+                }
+            }
+        }
+        if c.to_ascii_lowercase() == b'p' && r == (if white { 6 } else { 1 }) {
+            let q = if white { 7 } else { 0 };
+            for df in [-1i32, 0, 1] {
+                let g = f + df;
+                if (0..8).contains(&g) {
+                    out.push(mk(i, q * 8 + g, None));
+                    out.push(mk(i, q * 8 + g, Some(chess_bitboard::PromotionPiece::Queen)));
+                    out.push(mk(i, q * 8 + g, Some(chess_bitboard::PromotionPiece::Knight)));
+                }
+            }
+        }
+    }
+    out
+}
+
 pub fn c02(out: &mut Out, thorough: bool) {
     let n = n_positions(thorough, 5_000, 120_000);
     let mut rng = Rng::new(out.seed ^ 0xC02);
@@ -144,6 +196,9 @@ pub fn c02(out: &mut Out, thorough: bool) {
         for &m in legal.iter().take(6) {
             let alt = ChessMove { piece: if m.piece.is_some() { None } else { Some(chess_bitboard::PromotionPiece::Knight) }, ..m };
             out.case("offered-wrong-promotion-field", nt, format!("pos move {p} {}", mv_str(alt)), || successor(&b, alt));
+        }
+        for m in candidate_moves(&v) {
+            out.case("offered-candidate", nt, format!("pos move {p} {}", mv_str(m)), || successor(&b, m));
         }
     }
 }
@@ -920,6 +975,14 @@ pub fn c06(out: &mut Out, thorough: bool) {
                             3 => own(b'q'),
                             _ => b'.',
                         };
+                        // corner without its rook: sometimes the rook stands where castling would have put it (f/d file)
+                        // or next to the corner instead
+                        if content >= 2 && extra_rights == 0 {
+                            let castled = if corner % 8 == 7 { corner - 2 } else { corner + 3 };
+                            if sq[castled] == b'.' && king_at_home {
+                                sq[castled] = own(b'r');
+                            }
+                        }
                         // a blocker next to the corner so that an enemy rook there gives no check along the back rank
                         let blocker = if corner % 8 == 0 { corner + 1 } else { corner - 1 };
                         sq[blocker] = own(b'n');
